@@ -129,7 +129,7 @@ def C18(prog: Program, run: Run, tier: str) -> None:
 
 
 # ---------------------------------------------------------------------------------------------
-from .rules import axis, extra, findings, forward, generic, guards, round3, round4, round5, rounding, specific  # noqa: E402
+from .rules import axis, extra, findings, forward, generic, generic3, guards, round3, round4, round5, round6, rounding, specific  # noqa: E402
 
 AXIS_DESC = (
     "R-AXIS x/y axis-tag consistency: T1 tagged value in a slot of the opposite axis (Affine, xy_/yx_, BoundingBox, "
@@ -416,7 +416,11 @@ GENERIC_DESC = (
     "R-VALUEOBJ EQSYM an __eq__ that lets in instances of an unrelated package class is matched by that class' __eq__ letting it in (symmetry); "
     "R-SHIFTIDX no shifted subscript a[i + k] under a guard that admits negative i; R-SWALLOW no predicate answers a boolean constant from the handler of a package call that raised because it could not tell; "
     "R-UNITS a computed densification step for to_crs comes from the geometry, not from the target side; R-REVRANGE the backward alternative of range(a, b) is range(b-1, a-1, -1); "
-    "R-IMPORTTIME no uuid/tempfile/time generator evaluated at module level"
+    "R-IMPORTTIME no uuid/tempfile/time generator evaluated at module level; "
+    "R-INFALSE no membership test against a literal holding both None and a bool (0 == False: a numeric zero is taken for 'not set'); "
+    "R-ACQUIRE the result of lock.acquire(timeout=..)/acquire(blocking=False) is tested before the protected work; "
+    "R-TWOCORNER no box mapped into another frame through two opposite corners only, unless the path is known axis aligned; "
+    "R-SIGNMAG (locals) no max()/min() over products of signed resolution components unpacked into locals"
 )
 
 
@@ -446,6 +450,10 @@ ROUND4 = {'C01': ['epsg_str_canonical', 'explicit_crs_checked', 'wrapper_keyword
 ROUND5 = {'C02': ['resolution_siblings'], 'C03': ['point_transform_clamps'], 'C05': ['part_budget_matches_reservation'], 'C06': ['part_budget_matches_reservation'], 'C08': ['zoom_to_resolution_exact'], 'C11': ['utm_lonlat_needs_no_crs'], 'C13': ['dst_nodata_before_warp'], 'C16': ['auto_resolution_fallback'], 'C17': ['int_index_is_unit_slice'], 'C18': ['parts_dir_full_name'], 'C20': ['snap_tolerance_both_edges', 'resolution_siblings']}
 
 
+ROUND6 = {'C01': ['wrapper_keyword_operands'], 'C02': ['cache_field_not_copied'], 'C07': ['to_crs_keeps_vertices'], 'C08': ['zoom_to_resolution_as_requested', 'snap_grid_every_path_snaps'],
+          'C20': ['snap_grid_every_path_snaps'], 'C09': ['label_affine_not_snapped'], 'C10': ['paste_read_scale_sibling'], 'C03': ['paste_read_scale_sibling'], 'C11': ['cache_field_not_copied']}
+
+
 def _undecided(name, e):
     from .report import UNDET, Instance
 
@@ -465,10 +473,16 @@ def _with_generic(pid, fn):
                 run.add(getattr(round5, _nm)(prog), "round-5 clause: " + (getattr(round5, _nm).__doc__ or "").split(". ", 1)[-1].split(".")[0].strip() + " (structural part of a property a seeded change broke; see rules/round5.py)")
             except AnalysisError as e:
                 run.add([_undecided(_nm, e)])
+        for _nm in ROUND6.get(pid, []):
+            try:
+                run.add(getattr(round6, _nm)(prog), "round-6 clause: " + (getattr(round6, _nm).__doc__ or "").split(". ", 1)[-1].split(".")[0].strip() + " (positive-evidence clause; see rules/round6.py)")
+            except AnalysisError as e:
+                run.add([_undecided(_nm, e)])
         run.add(findings.declared(prog, pid), "R-DECLARED findings recorded with a failing input but without a structural clause: printed for the record, not decided")
         mods = {m for m in ANCHORED.get(pid, set()) if m in prog.modules}
         run.add(generic.rule_dup(prog, mods) + generic.rule_truthy(prog, mods) + generic.rule_abseps(prog, mods) + generic.rule_localmemo(prog, mods) + generic.rule_remainder_owner(prog, mods) + generic.rule_fallback(prog, mods) + generic.rule_isclose(prog, mods) + generic.rule_signed_magnitude(prog, mods) + generic.rule_zerodiv(prog, mods) + generic.rule_densify(prog, mods) + generic.rule_termination(prog, mods) + generic.rule_intidx(prog, mods) + generic.rule_assert_vs_annotation(prog, mods) + generic.rule_precision(prog, mods) + generic.rule_sharedmut(prog, mods) + generic.rule_itertwice(prog, mods)
-                + generic.rule_epsg_proxy(prog, mods) + generic.rule_rotation_tolerance(prog, mods) + generic2.rule_numnorm(prog, mods) + generic2.rule_isnum(prog, mods) + generic2.rule_eqsym(prog, mods) + generic2.rule_shiftidx(prog, mods) + generic2.rule_swallow(prog, mods) + generic2.rule_units(prog, mods) + generic2.rule_revrange(prog, mods) + generic2.rule_importtime(prog, mods), GENERIC_DESC)
+                + generic.rule_epsg_proxy(prog, mods) + generic.rule_rotation_tolerance(prog, mods) + generic2.rule_numnorm(prog, mods) + generic2.rule_isnum(prog, mods) + generic2.rule_eqsym(prog, mods) + generic2.rule_shiftidx(prog, mods) + generic2.rule_swallow(prog, mods) + generic2.rule_units(prog, mods) + generic2.rule_revrange(prog, mods) + generic2.rule_importtime(prog, mods)
+                + generic3.rule_infalse(prog, mods) + generic3.rule_acquire(prog, mods) + generic3.rule_twocorner(prog, mods) + generic3.rule_signmag_locals(prog, mods), GENERIC_DESC)
 
     wrapped.__name__ = pid
     wrapped.__doc__ = fn.__doc__
